@@ -6,7 +6,8 @@ from debian_inspector import debcon
 
 ID = 'C08'
 LEVEL = 'proof'
-THEOREMS = [('DebInspector.Thm.C08', ['Props.C08.mergeItems_keys', 'Props.C08.mergeItems_lookup', 'Props.C08.mergeStep_keys'])]
+THEOREMS = [('DebInspector.Thm.C08', ['Props.C08.mergeItems_keys', 'Props.C08.mergeItems_lookup', 'Props.C08.mergeStep_keys']),
+            ('DebInspector.Thm.C08M', ['Props.C08M.soundM', 'Props.C08M.getParagraphData_items'])]
 TRUSTED = [
     'Lean 4.33.0 kernel',
     'reading of the property as Props.C08.holdsOn (word inclusion) and holdsOnM (merge of repeated names)',
@@ -17,10 +18,10 @@ TRUSTED = [
 ASSUMPTIONS = ['texts are str objects without lone surrogates; words are lower-cased runs of non-white-space, non-colon characters']
 RULE = ('line vocabulary with repeats (a: 1, a: 2, A: 3, b:, continuations, From me at first/middle/last position, colon-first lines, blank-then-body, CRLF/CR, FF, U+0085, U+2028); '
         'the pairs family exhaustively for <= 4 pairs over 2 names x 2 casings x 3 values. non-trivial = the text has a colon')
-TECHNIQUE = ('Lean 4 theorems for the merge clause (keys in order of first occurrence; each key maps to its distinct values in order of first appearance, any number and pattern of repeats) + executable word-inclusion and merge specification evaluated on every implementation observation + correspondence with a hand model of the stdlib header parser')
+TECHNIQUE = ('Lean 4 theorems for the merge clause, on items and on the rendered text (soundM: keys in order of first occurrence; each key maps to its distinct values in order of first appearance, any number and pattern of repeats) + executable word-inclusion and merge specification evaluated on every implementation observation + correspondence with a hand model of the stdlib header parser')
 LEVEL_TEXT = ('The two clauses (every word of the text appears in a key or a value; repeated names merge under the first occurrence keeping distinct values in order) are decided by the '
               'executable specification on every implementation observation and by correspondence with the hand model of HeaderParser + get_paragraph_data over adversarial line '
-              'vocabularies and the exhaustive pairs family. Proved in Lean 4 for the merging loop of get_paragraph_data, for any list of (name, value) items: the keys are the lower-cased trimmed names in order of first occurrence (mergeItems_keys) and every key maps to the newline-join of the distinct trimmed values spelled for it in order of first appearance, whatever the pattern of repeated names and values, when the values are single lines (mergeItems_lookup). That the header parser delivers exactly the items of the text, and the word-inclusion clause, are not theorems.')
+              'vocabularies and the exhaustive pairs family. Proved in Lean 4 for the merging loop of get_paragraph_data, for any list of (name, value) items: the keys are the lower-cased trimmed names in order of first occurrence (mergeItems_keys) and every key maps to the newline-join of the distinct trimmed values spelled for it in order of first appearance, whatever the pattern of repeated names and values, when the values are single lines (mergeItems_lookup). Props.C08M.soundM: for every paragraph of single-line Name: value fields (names a letter then letters, digits, hyphens; values without line boundaries or surrounding blanks) with any pattern of repeated names and values, the model of get_paragraph_data on the rendered text returns exactly the expected mapping: the header parser delivers exactly the items of the text (getParagraphData_items, any names) and the merge gives each lower-cased name once, in order of first occurrence, with its distinct values in order. The word-inclusion clause over arbitrary texts is not a theorem.')
 LEVEL_NOTE = ('Trusted: Lean kernel; axioms propext, Classical.choice, Quot.sound only; the stdlib email parser is modelled and tied by correspondence, not verified.')
 
 VOCAB = ['a: 1', 'a: 2', 'A: 3', 'a: 1', 'b:', 'b: x y', ' cont', '\tcont2', ' .', 'From me', 'From: you', ':x', ': ', 'junk line', '', ' ', 'Homepage: http://x:80/y',
